@@ -69,9 +69,10 @@ def run(ctx):
     # sessions: the file is rewritten (same name) between two runs of the same pipeline in one process
     partial = dict(pcases[0]["stored"], photon=-1, signal=-1, scene=-1)
     other = {b: (v + 20 if v >= 0 else v) for b, v in pcases[0]["stored"].items()}
+    nodata = dict(pcases[0]["stored"], data=-1, image=-1)   # the next file carries no processed data: the old tree must go
     sjobs = []
     for k, c in enumerate(pcases):
-        nxt = other if c["stored"] != other and k % 2 == 0 else partial
+        nxt = (other if c["stored"] != other else partial, partial, nodata)[k % 3]
         sjobs.append(dict(cfg=c, real=0, kind="ccd",
                           ops=[["run"], ["rewrite", nxt], ["run"], ["rewrite", c["stored"]], ["peek", "repr"], ["run"]]))
     straces = check.pmap(P._session_job, sjobs, chunksize=4)
